@@ -3,40 +3,62 @@ C11 — property theorems: date/time values follow the proleptic Gregorian timel
 
 Reading guide
 * `Cal.*`       : the model = transcription of elementpath/datatypes/datetime.py + helpers.py
-                  (EPV/Model/Calendar.lean); years are the library's internal numbers (never 0).
+                  (EPV/Model/Calendar.lean); years are the library's internal numbers (never 0;
+                  -1 is 1 BCE in both XSD versions, only the lexical mapping differs).
 * `Timeline.*`  : the specification (EPV/Spec/Timeline.lean); `daysBeforeYear`/`dayNum` are plain
-                  sums of year and month lengths, `instant` = µs since 0001-01-01T00:00:00Z.
+                  sums of year and month lengths, `instant` = µs since 0001-01-01T00:00:00Z
+                  (`instantC`/`localC` are the closed forms, equal on valid values: `instant_eq_instantC`).
 * `absV v`      : the specification value denoted by a model value (internal year -> astronomical).
 * `v.Valid`     : year ≠ 0, real calendar date, time inside the day, timezone within ±14:00.
 * `TdOk t`      : `t` fits a `datetime.timedelta` (|days| ≤ 999 999 999).  Its complement is exactly
-                  the trigger of known finding F11d (representation limit ≈ ±2.7 million years).
-All theorems quantify over unbounded `Int` years and times.
+                  the trigger of known finding F11d (representation limit ≈ ±2.7 million years);
+                  `AddDomain`, `DiffDomain`, `CmpDomain`, `AdjustDomain` are conjunctions of `TdOk`
+                  for the timedeltas the respective operation builds.
+All theorems quantify over unbounded `Int` years, times and durations.
 -/
-import EPV.Lemmas.CalendarDelta
+import EPV.Lemmas.CalendarOps
 namespace EPV.C11
 open EPV.Cal EPV.Timeline
+
+/-! ### calendar arithmetic -/
 
 /-- `days_from_common_era` (three branches, floor divisions) equals the **sum of the lengths of the
 years** between 0001-01-01 and the end of year `y` (negative for BCE years) — every `Int` year. -/
 theorem dfce_eq_sum (y : Int) : dfce y = daysBeforeYear (y + 1) := by
   rw [dfce_eq_C, daysBeforeYear_eq_C]
 
-/-- the definitional instant equals the closed form the driver evaluates -/
-theorem instant_eq_instantC (v : Val) (hv : v.Valid) : v.instant = v.instantC := by
-  unfold Val.instant Val.instantC Val.localT Val.localC
-  rw [dayNum_eq_C _ _ _ hv.1 hv.2.1]
+/-- the definitional instant (sums of year/month lengths) equals the closed form the driver evaluates -/
+theorem instant_eq_instantC (v : Val) (hv : v.Valid) : v.instant = v.instantC :=
+  (instantC_eq v hv).symm
+
+/-- the specification's own inverse: `civil n` is the calendar date whose (definitional) day number is `n` -/
+theorem civil_dayNum (n : Int) :
+    1 ≤ (civil n).2.1 ∧ (civil n).2.1 ≤ 12 ∧ 1 ≤ (civil n).2.2 ∧
+    (civil n).2.2 ≤ monthLen (civil n).1 (civil n).2.1 ∧
+    dayNum (civil n).1 (civil n).2.1 (civil n).2.2 = n := by
+  have h := civil_spec n
+  refine ⟨h.1, h.2.1, h.2.2.1, h.2.2.2.1, ?_⟩
+  rw [dayNum_eq_C _ _ _ h.1 h.2.1]; exact h.2.2.2.2
+
+/-- valid values with the same timezone and the same instant are equal (the timeline is faithful) -/
+theorem instant_injective {v w : DT} (hv : v.Valid) (hw : w.Valid) (htz : v.tz = w.tz)
+    (h : (absV v).instant = (absV w).instant) : v = w := by
+  apply dt_instant_inj hv hw htz
+  rw [instantC_eq _ hv.2.1, instantC_eq _ hw.2.1]; exact h
+
+/-! ### todelta / fromdelta -/
 
 /-- **`todelta()` is the value's instant on the timeline**: for every valid value whose instant fits a
 `timedelta`, in both eras and beyond year 9999. -/
 theorem todelta_eq_instant (v : DT) (hv : v.Valid) (h : TdOk (absV v).instant) :
     todelta v = .ok (absV v).instant := by
-  rw [todelta_eq v hv, ← instant_eq_instantC _ hv.2.1, tdNorm_ok h]
+  rw [todelta_eq v hv, instantC_eq _ hv.2.1, tdNorm_ok h]
 
 /-- PARTIAL (known finding F11d): outside the `timedelta` range `todelta()` raises `OverflowError`;
 the full statement "`todelta v` is the instant for every year in ±2^31" is false. -/
 theorem todelta_overflow (v : DT) (hv : v.Valid) (h : ¬ TdOk (absV v).instant) :
     todelta v = .error .overflow := by
-  rw [todelta_eq v hv, ← instant_eq_instantC _ hv.2.1, tdNorm_err h]
+  rw [todelta_eq v hv, instantC_eq _ hv.2.1, tdNorm_err h]
 
 /-- F11d witness: 3000000-01-01T00:00:00 is a valid value whose timeline offset does not fit. -/
 theorem todelta_overflow_witness :
@@ -46,5 +68,224 @@ theorem todelta_overflow_witness :
 /-- test (literals): the hypotheses of `todelta_eq_instant` hold on a BCE leap day with timezone -/
 example : (⟨-5, 2, 29, 45015000001, some 330⟩ : DT).Valid ∧ TdOk (absV ⟨-5, 2, 29, 45015000001, some 330⟩).instantC ∧
     todelta ⟨-5, 2, 29, 45015000001, some 330⟩ = .ok (-152729984999999) := by decide
+
+/-- **`todelta (fromdelta t) = t`**: for every offset that fits a `timedelta`, `fromdelta` yields a valid
+value without timezone whose `todelta` is `t` again (all four code paths of `fromdelta`). -/
+theorem todelta_fromdelta (t : Int) (h : TdOk t) :
+    ∃ v, fromdelta false t = .ok v ∧ v.Valid ∧ v.tz = none ∧ todelta v = .ok t := by
+  obtain ⟨w, hw, hwv, hwtz, hwl⟩ := fromdelta_ok t h
+  refine ⟨w, hw, hwv, hwtz, ?_⟩
+  rw [todelta_eq w hwv, instantC_local, absV_tz, hwtz, hwl]
+  simp only [offUs]
+  rw [show t - 0 = t by omega]; exact tdNorm_ok h
+
+/-- **`fromdelta (todelta d) = d`** for every valid value without timezone whose instant fits a
+`timedelta` — BCE values with a time part and leap years after 9999 included. -/
+theorem fromdelta_todelta (v : DT) (hv : v.Valid) (htz : v.tz = none) (h : TdOk (absV v).instant) :
+    (todelta v >>= fromdelta false) = .ok v := by
+  rw [todelta_eq_instant v hv h]
+  simp only [bind, Except.bind]
+  have e : (absV v).instant = (absV v).localC := by
+    rw [← instantC_eq _ hv.2.1, instantC_local, absV_tz, htz]; simp [offUs]
+  rw [e, fromdelta_localC v hv (by rw [← e]; exact h)]
+  congr 1
+  obtain ⟨y, m, d, u, z⟩ := v
+  simp only at htz; subst htz; rfl
+
+/-- with a timezone the round trip gives the same instant expressed in UTC without timezone
+(what `fromdelta` is documented to return) -/
+theorem fromdelta_todelta_tz (v : DT) (hv : v.Valid) (h : TdOk (absV v).instant) :
+    ∃ w, (todelta v >>= fromdelta false) = .ok w ∧ w.Valid ∧ w.tz = none ∧ (absV w).localC = (absV v).instant := by
+  rw [todelta_eq_instant v hv h]
+  simp only [bind, Except.bind]
+  exact fromdelta_ok _ h
+
+/-- the `Date` classes: `fromdelta` returns the day that contains the offset -/
+theorem fromdelta_date (t : Int) (h : TdOk t) :
+    ∃ v, fromdelta true t = .ok v ∧ v.Valid ∧ v.tz = none ∧ v.us = 0 ∧ (absV v).localC = t - t % Cal.US := by
+  obtain ⟨w, hw, hwv, hwtz, hwl⟩ := fromdelta_spec true t h
+  refine ⟨w, hw, hwv, hwtz, ?_, by simpa using hwl⟩
+  have hl : (absV w).localC = t - t % Cal.US := by simpa using hwl
+  have hu := hwv.2.1.2.2.2.2
+  simp only [absV] at hu
+  simp only [Val.localC, absV, Cal.US, Timeline.US] at hl hu
+  omega
+
+/-- test (literals): F11a's input now round-trips -/
+example : (todelta ⟨-820, 1, 1, 45015000000, none⟩ >>= fromdelta false) = .ok ⟨-820, 1, 1, 45015000000, none⟩ := by decide
+
+/-! ### ± dayTimeDuration, differences -/
+
+/-- **`d ± dur`** (dateTime classes): the result is a valid value with the operand's timezone whose
+instant is the operand's instant ± the duration. -/
+theorem add_dur_instant (v : DT) (dur : Int) (neg : Bool) (hv : v.Valid) (hd : AddDomain v dur neg) :
+    ∃ w, addDur false v dur neg = .ok w ∧ w.Valid ∧ w.tz = v.tz ∧
+      (absV w).instant = (absV v).instant + (if neg then -dur else dur) := by
+  obtain ⟨w, h1, h2, h3, h4⟩ := addDur_spec v dur neg hv hd
+  exact ⟨w, h1, h2, h3, by rw [← instantC_eq _ h2.2.1, ← instantC_eq _ hv.2.1]; exact h4⟩
+
+/-- **`date ± dur`** (the `Date` classes, F&O `op:add-dayTimeDuration-to-date`): the result is the day that
+contains the starting instant of the date moved by the duration, with the operand's timezone. -/
+theorem add_dur_date (v : DT) (dur : Int) (neg : Bool) (hv : v.Valid) (hd : AddDomain v dur neg) :
+    ∃ w, addDur true v dur neg = .ok w ∧ w.Valid ∧ w.tz = v.tz ∧
+      (absV w).localC = ((absV v).localC + (if neg then -dur else dur)) -
+        ((absV v).localC + (if neg then -dur else dur)) % Cal.US :=
+  addDur_date_spec v dur neg hv hd
+
+/-- **`d + dur − dur = d`** for every valid value and every duration inside the domain. -/
+theorem add_sub_duration (v : DT) (dur : Int) (hv : v.Valid) (hd : AddDomain v dur false)
+    (hl : TdOk (absV v).localC) :
+    ∃ w, addDur false v dur false = .ok w ∧ addDur false w dur true = .ok v := by
+  obtain ⟨w, h1, h2, h3, h4⟩ := addDur_spec v dur false hv hd
+  refine ⟨w, h1, ?_⟩
+  have hlw : (absV w).localC = (absV v).localC + dur := by
+    have a := instantC_local (absV w); have b := instantC_local (absV v)
+    rw [absV_tz] at a b; rw [h3] at a
+    simp only [Bool.false_eq_true, ↓reduceIte] at h4; omega
+  simp only [Bool.false_eq_true, ↓reduceIte] at h4
+  have hd' : AddDomain w dur true := by
+    obtain ⟨d1, d2, d3, d4⟩ := hd
+    simp only [Bool.false_eq_true, ↓reduceIte] at d3 d4
+    refine ⟨by rw [h4]; exact d3, d2, ?_, ?_⟩
+    · simp only [↓reduceIte]; rw [h4, show (absV v).instantC + dur + -dur = (absV v).instantC by omega]; exact d1
+    · simp only [↓reduceIte]; rw [hlw, show (absV v).localC + dur + -dur = (absV v).localC by omega]; exact hl
+  obtain ⟨u, g1, g2, g3, g4⟩ := addDur_spec w dur true h2 hd'
+  rw [g1]; congr 1
+  apply dt_instant_inj g2 hv (by rw [g3, h3])
+  simp only [↓reduceIte] at g4
+  rw [g4, h4]; omega
+
+/-- **`d2 − d1` is the elapsed time** between the two instants (also across eras and year 9999/10000). -/
+theorem diff_is_elapsed (a b : DT) (ha : a.Valid) (hb : b.Valid) (hd : DiffDomain a b) :
+    diff a b = .ok ((absV a).instant - (absV b).instant) := by
+  rw [diff_spec a b ha hb hd, instantC_eq _ ha.2.1, instantC_eq _ hb.2.1]
+
+/-- **`d1 + (d2 − d1) = d2`** when both have the same timezone (in general: the instant of `d2` in the
+timezone of `d1`). -/
+theorem sub_then_add (a b : DT) (ha : a.Valid) (hb : b.Valid) (htz : a.tz = b.tz) (hd : DiffDomain b a)
+    (hadd : AddDomain a ((absV b).instantC - (absV a).instantC) false) :
+    ∃ δ, diff b a = .ok δ ∧ addDur false a δ false = .ok b := by
+  refine ⟨_, diff_spec b a hb ha hd, ?_⟩
+  obtain ⟨w, h1, h2, h3, h4⟩ := addDur_spec a _ false ha hadd
+  rw [h1]; congr 1
+  apply dt_instant_inj h2 hb (by rw [h3, htz])
+  simp only [Bool.false_eq_true, ↓reduceIte] at h4
+  rw [h4]; omega
+
+/-- PARTIAL (F11d): outside `AddDomain` the addition raises `OverflowError` instead of returning the value;
+witness `2800000-01-01T00:00:00 + P1D`. -/
+theorem add_dur_overflow_witness :
+    (⟨2800000, 1, 1, 0, none⟩ : DT).Valid ∧ ¬ AddDomain ⟨2800000, 1, 1, 0, none⟩ 86400000000 false ∧
+    addDur false ⟨2800000, 1, 1, 0, none⟩ 86400000000 false = .error .overflow := by decide
+
+/-- test (literals): the domain hypotheses are satisfiable across the era boundary (1 BCE -> 1 CE) -/
+example : AddDomain ⟨-1, 12, 31, 86399999999, some 330⟩ 1 false ∧
+    addDur false ⟨-1, 12, 31, 86399999999, some 330⟩ 1 false = .ok ⟨1, 1, 1, 0, some 330⟩ := by decide
+
+/-! ### comparison -/
+
+/-- **the comparison operators order values as instants on the timeline** (a value without timezone is
+placed at UTC, as the library's `_compare` does): `lt`, `le`, `eq`, `gt`, `ge`, every pair of valid
+values of the same class, also across a new year with different timezones (former F11b). -/
+theorem compare_iff_instant_order (op : Cmp) (a b : DT) (ha : a.Valid) (hb : b.Valid) (hd : CmpDomain a b) :
+    compare op a b = op.op (absV a).instant (absV b).instant := by
+  rw [compare_spec op a b ha hb hd, instantC_eq _ ha.2.1, instantC_eq _ hb.2.1]
+
+/-- test (literals): F11b's pair: 2000-12-31T23:00:00-05:00 is *not* before 2001-01-01T01:00:00+05:00 -/
+example : compare .lt ⟨2000, 12, 31, 82800000000, some (-300)⟩ ⟨2001, 1, 1, 3600000000, some 300⟩ = false ∧
+    CmpDomain ⟨2000, 12, 31, 82800000000, some (-300)⟩ ⟨2001, 1, 1, 3600000000, some 300⟩ := by decide
+
+/-- PARTIAL (F11d): for contiguous different years beyond the `timedelta` range `_compare` falls back
+to the order of the year numbers, which timezones can contradict. -/
+theorem compare_overflow_witness :
+    let a : DT := ⟨3000000, 12, 31, 82800000000, some (-300)⟩
+    let b : DT := ⟨3000001, 1, 1, 3600000000, some 300⟩
+    a.Valid ∧ b.Valid ∧ ¬ CmpDomain a b ∧ compare .lt a b = true ∧ ¬ ((absV a).instantC < (absV b).instantC) := by
+  decide
+
+/-! ### timezone adjustment -/
+
+/-- **`adjust-dateTime-to-timezone` preserves the instant** when both the value and the argument have a
+timezone; the result carries the new timezone. -/
+theorem adjust_tz_preserves_instant (v : DT) (z0 z : Int) (hv : v.Valid) (htz : v.tz = some z0)
+    (hz : -840 ≤ z ∧ z ≤ 840) (hd : AdjustDomain v z) :
+    ∃ w, adjustDateTime v (some z) = .ok w ∧ w.Valid ∧ w.tz = some z ∧ (absV w).instant = (absV v).instant := by
+  obtain ⟨w, h1, h2, h3, h4⟩ := adjust_spec v z0 z hv htz hz hd
+  exact ⟨w, h1, h2, h3, by rw [← instantC_eq _ h2.2.1, ← instantC_eq _ hv.2.1]; exact h4⟩
+
+/-- without a timezone on either side the components are kept and only the timezone is replaced
+(F&O 3.1 §9.6.1) -/
+theorem adjust_tz_components (v : DT) (tz : Option Int) (h : v.tz = none ∨ tz = none) :
+    adjustDateTime v tz = .ok { v with tz := tz } := by
+  unfold adjustDateTime
+  rcases h with h | h
+  · rw [h]
+  · subst h; cases v.tz <;> rfl
+
+/-! ### ± yearMonthDuration -/
+
+/-- **adding a yearMonthDuration clamps the day to the target month**: the result is the value whose
+astronomical year and month are `(12·year + month − 1 + months) divmod 12`, whose day is
+`min day (monthLen target)`, time and timezone unchanged — also across the era boundary, for BCE leap
+years and beyond year 9999 (former F11g). -/
+theorem ym_add_clamps (v : DT) (ms : Int) (hv : v.Valid)
+    (hyb : (internal (Timeline.addYM (absV v) ms).year).natAbs ≤ 2 ^ 31) :
+    ∃ w, Cal.addYM false v ms = .ok w ∧ w.Valid ∧ absV w = Timeline.addYM (absV v) ms ∧
+      (absV w).day = min v.day (monthLen (absV w).year (absV w).month) := by
+  obtain ⟨w, h1, h2, h3⟩ := addYM_spec v ms hv hyb
+  refine ⟨w, h1, h2, h3, ?_⟩
+  rw [h3]; rfl
+
+/-- test (literals): 0000-01-31 (1 BCE, leap) + P1M = 0000-02-29; 0001-01-31 − P1M = 1 BCE-12-31 -/
+example : Cal.addYM false ⟨-1, 1, 31, 7, some 330⟩ 1 = .ok ⟨-1, 2, 29, 7, some 330⟩ ∧
+    Cal.addYM false ⟨1, 1, 31, 0, none⟩ (-1) = .ok ⟨-1, 12, 31, 0, none⟩ := by decide
+
+/-! ### lexical year numbering and components -/
+
+theorem isoYear_v11 (y : Int) : isoYear true y = (if y < 0 then y + 1 else y) := by
+  unfold isoYear
+  simp only [Bool.true_eq_false, or_false, ↓reduceIte]
+  repeat' split
+  all_goals omega
+
+theorem isoYear_v10 (y : Int) : isoYear false y = y := by
+  unfold isoYear
+  simp only [Bool.false_eq_true, or_true, ↓reduceIte]
+  repeat' split
+  all_goals omega
+
+/-- **the year component survives the lexical round trip** in both XSD versions: the string form and
+`year-from-dateTime` give back the lexical year `n`, and the stored year denotes the astronomical year
+the XSD version assigns to `n` (XSD 1.0: no year 0, `-0001` is 1 BCE; XSD 1.1: `0000` is 1 BCE). -/
+theorem lex_year_roundtrip (v11 : Bool) (n y : Int) (h : lexYear v11 n = .ok y) :
+    y ≠ 0 ∧ isoYear v11 y = n ∧ yearFrom v11 y = n ∧
+    some (astro y) = (if v11 then astroOfLex11 n else astroOfLex10 n) := by
+  unfold lexYear at h
+  cases v11 with
+  | true =>
+    simp only [↓reduceIte, Except.ok.injEq] at h
+    subst h
+    rw [isoYear_v11]
+    unfold yearFrom astro astroOfLex11
+    simp only [↓reduceIte, and_true, Option.some.injEq]
+    refine ⟨?_, ?_, ?_, ?_⟩ <;> repeat' split
+    all_goals omega
+  | false =>
+    simp only [Bool.false_eq_true, ↓reduceIte] at h
+    split at h
+    · cases h
+    · rename_i hn
+      simp only [Except.ok.injEq] at h
+      subst h
+      rw [isoYear_v10]
+      unfold yearFrom astro astroOfLex10
+      simp only [Bool.false_eq_true, ↓reduceIte, hn, and_false, Option.some.injEq]
+      refine ⟨hn, trivial, trivial, ?_⟩
+      repeat' split
+      all_goals omega
+
+/-- XSD 1.0 has no year 0000 (`ValueError`), XSD 1.1 accepts every lexical year -/
+theorem lex_year_zero : lexYear false 0 = .error .value ∧ ∀ n : Int, ∃ y, lexYear true n = .ok y :=
+  ⟨rfl, fun _ => ⟨_, rfl⟩⟩
 
 end EPV.C11
